@@ -20,7 +20,11 @@ Inductive mcond :=
 | MCInEnts                   (* self in self.map.entities *)
 | MCIsSpawn                  (* self is self.map.spawn *)
 | MCNewIs (s : str)          (* str_val.casefold() == '<s>' *)
-| MCNot (c : mcond) | MCOr (a b : mcond) | MCAnd (a b : mcond).
+| MCNot (c : mcond) | MCOr (a b : mcond) | MCAnd (a b : mcond)
+| MCCached (attr : str).     (* self.<attr>: a flag kept on the entity object (round 5).  The model has no such state:
+                                the facts never decide it ([cond_abs] = None), so a program passes a path obligation only
+                                if both branches under it execute the same actions; [cond_eval] gives it an arbitrary
+                                value that no theorem about passing programs depends on *)
 Inductive mact :=
 | ARemClass (k : mkey)       (* _remove_copyset(self.map.by_class, <k>, self) *)
 | AAddClass (k : mkey)       (* self.map.by_class[<k>].add(self) *)
@@ -57,6 +61,7 @@ Section maint.
     | MCNot c => negb (cond_eval c e key v st)
     | MCOr a b => cond_eval a e key v st || cond_eval b e key v st
     | MCAnd a b => cond_eval a e key v st && cond_eval b e key v st
+    | MCCached _ => false
     end.
 
   (** [rec e k v st]: what [self[k] = v] does (the function itself, one level down) *)
@@ -128,6 +133,23 @@ Section maint.
     | MCNot c => negb <$> cond_abs c f
     | MCOr a b => match cond_abs a f, cond_abs b f with Some x, Some y => Some (x || y) | _, _ => None end
     | MCAnd a b => match cond_abs a f, cond_abs b f with Some x, Some y => Some (x && y) | _, _ => None end
+    | MCCached _ => None
+    end.
+
+  (** state census (round 5): the program decides everything from its arguments, the entity list and the spawn — it
+      reads no flag cached on the entity object (seeded fault c07_7: [self._in_map], set by add_ent only) *)
+  Fixpoint cond_stateless (c : mcond) : bool :=
+    match c with
+    | MCCached _ => false
+    | MCNot c => cond_stateless c
+    | MCOr a b | MCAnd a b => cond_stateless a && cond_stateless b
+    | _ => true
+    end.
+  Fixpoint prog_stateless (p : mprog) : bool :=
+    match p with
+    | MSkip | MAct _ => true
+    | MSeq a b => prog_stateless a && prog_stateless b
+    | MIf c a b => cond_stateless c && prog_stateless a && prog_stateless b
     end.
 
   (** the actions on the path these facts select; a condition the facts do not decide is accepted only when both
@@ -211,6 +233,19 @@ Section maint.
       (MIf (MCKeyIs tn)
          (MSeq (MAct (ARemTarget MKOrig)) (MIf (MCOr MCIsSpawn MCInEnts) (MAct (AAddTarget MKNew)) MSkip))
          MSkip).
+  (** the program of seeded fault c07_7: membership is read from a flag on the entity instead of scanning the list *)
+  Definition in_map_attr : str := [95;105;110;95;109;97;112]%N.
+  Definition maint_cached_flag : mprog :=
+    MIf (MCKeyIs cn)
+      (MSeq (MAct (ARemClass MKOrig))
+         (MIf (MCCached in_map_attr) (MAct (AAddClass MKNew))
+            (MIf MCIsSpawn
+               (MSeq (MIf (MCNot (MCNewIs ws)) (MSeq (MAct (ASelfSet cn ws)) (MAct (ARaise EValue))) MSkip)
+                     (MAct (AAddClass (MKLit ws))))
+               MSkip)))
+      (MIf (MCKeyIs tn)
+         (MSeq (MAct (ARemTarget MKOrig)) (MIf (MCOr MCIsSpawn (MCCached in_map_attr)) (MAct (AAddTarget MKNew)) MSkip))
+         (MIf (MCKeyIs nodeid) MSkip MSkip)).
 End maint.
 
 (** * 2. VMF.add_ents over an iterable *)
